@@ -169,7 +169,7 @@ def gen_async(pid, macro, profile, gates, seed, idx, heavy):
     %s""" % (decl(profile, gates=gates), prog, "\n    ".join(lines), "\n    ".join(cov))
     desc = dict(macro=macro, profile=list(profile), carrier="res", gates_pending_max=gates, max_polls=maxpolls,
                 symbolic=["ok flag, payload and pending count (<= %d) at each of the %d positions" % (gates, sum(profile))] + (["eager-poll bit per spawned task"] if KINDS[macro][2] else []))
-    return Program(pid, prog, body, desc=desc, unwind=max(maxpolls, len(profile)) + 2, heavy=heavy, solo=True, group="%s/async" % macro,
+    return Program(pid, prog, body, desc=desc, unwind=max(12, maxpolls + 2, len(profile) + 2), heavy=heavy, solo=True, group="%s/async" % macro,
                    role=dict(kind=macro, carrier="res"))
 
 
